@@ -1071,6 +1071,18 @@ def do_op(W: World, it: dict):
     raise AssertionError("unknown op " + op)
 
 
+def _exc_class(name: str):
+    import builtins
+    c = _THROWABLE.get(name) or getattr(builtins, name, None)
+    if not (isinstance(c, type) and issubclass(c, Exception)):
+        return RuntimeError
+    try:
+        c("c20 scenario")
+    except Exception:  # noqa: BLE001
+        return RuntimeError
+    return c
+
+
 def _ref_type_name(e):
     o = e.ref() if e.ref is not None else None
     return type(o).__name__ if o is not None else None
@@ -1084,7 +1096,7 @@ def run_scenario(scn: list, mode: str, x: dict | None = None) -> dict:
     W = World()
     journals: dict[int, object] = {}
     obs = {"results": [], "snaps": [], "restore_bad": [], "cur_bad": [], "oracle_entries": [], "escaped": None,
-           "ops": [], "errsites": {}, "pos_seq": []}
+           "ops": [], "errsites": {}, "pos_seq": [], "suppressed": []}
     tracer = None
     if mode == "traced":
         tracer = Tracer(x)
@@ -1157,22 +1169,24 @@ def run_scenario(scn: list, mode: str, x: dict | None = None) -> dict:
                 before = class_state()
                 cur_before = jn.get_current_journal()
                 esc = None
+                came_out = None        # the exception the `with` statement itself let through
                 try:
                     with journals[j] as jj:
                         active.append(j)
                         if jn.get_current_journal() is not jj:
                             obs["cur_bad"].append(f"inside journal {j}: get_current_journal() is not it")
-                        # user exceptions are real Python exceptions for __exit__: raise a real one
+                        # the exception must be a real Python exception of the right type for __exit__
                         try:
                             block(it["body"])
                         except _Escape as e:
                             esc = e
-                            raise _THROWABLE.get(e.args[0], RuntimeError)("c20 scenario")
+                            raise _exc_class(e.args[0])("c20 scenario")
                 except _Escape:
                     raise
-                except Exception:  # noqa: BLE001
+                except Exception as ex:  # noqa: BLE001
                     if esc is None:
                         raise
+                    came_out = type(ex).__name__
                 finally:
                     if active and active[-1] == j:
                         active.pop()
@@ -1182,7 +1196,15 @@ def run_scenario(scn: list, mode: str, x: dict | None = None) -> dict:
                     if jn.get_current_journal() is not cur_before:
                         obs["cur_bad"].append(f"after journal {j}: current journal differs from before")
                 if esc is not None:
-                    raise esc
+                    if came_out is None:
+                        # Journal.__exit__ swallowed the exception: like Python, carry on with the statements after
+                        # the block (the plain run does not: results / escaping exception will differ)
+                        obs["suppressed"].append({"journal": j, "exception": esc.args[0]})
+                    elif came_out != _exc_class(esc.args[0]).__name__:
+                        obs["suppressed"].append({"journal": j, "exception": esc.args[0], "came_out_as": came_out})
+                        raise _Escape(came_out, came_out if came_out in common._EXN_NAMES else "OtherError")
+                    else:
+                        raise esc
             else:
                 raise AssertionError(it)
 
@@ -1318,6 +1340,12 @@ def compare_plain_journal(a: dict, c: dict) -> list[str]:
         bad.append(f"interference: final IR differs: {d}")
     if a.get("escaped_type") != c.get("escaped_type"):
         bad.append(f"interference: escaping exception plain={a.get('escaped_type')} journaled={c.get('escaped_type')}")
+    for r in c["suppressed"][:3]:
+        bad.append(f"interference: the exception {r['exception']} raised inside journal {r['journal']} "
+                   + (f"came out as {r['came_out_as']}" if r.get("came_out_as") else "did not come out of the `with` block"))
+    if len(a["results"]) != len(c["results"]):
+        bad.append(f"interference: {len(a['results'])} operations ran without a journal, {len(c['results'])} with "
+                   "(different statements executed after an exception)")
     for r in c["restore_bad"]:
         bad.append(f"not restored after journal {r['journal']} ({r['exit']} exit): {r['attributes']}")
     for r in c["cur_bad"]:
